@@ -62,7 +62,11 @@ def type_into_verus(ctx, fw, ident, hoist_to=None, within=None, external_derive=
                 if fw.text(f["vis_span"]) != "pub":
                     fw.replace(s, e, "pub", "W2")
         if n.get("vis_span") is None and hoist_to is not None:
-            pass
+            # a hoisted private type: widened so that trusted specs about its derived impls can name it
+            k = fw.src.rfind(b"struct", n["span"][0], n["ident_span"][0])
+            if k < 0:
+                raise WeaveError("%s: `struct` keyword of %s not found" % (fw.rel, ident))
+            fw.insert(k, "pub ", rule="W2")
     ctx.types.append({"file": fw.rel, "ident": ident, "line": fw.line_of(n["span"][0])})
     return n
 
@@ -261,3 +265,27 @@ def for_ref_to_iter(fw, loopnode):
         raise WeaveError("%s:%d R-foriter: loop expression is not `&E`" % (fw.rel, fw.line_of(loopnode["span"][0])))
     s, e = loopnode["expr_span"]
     fw.replace(s, e, t[1:].strip() + ".iter()", "W6-R-foriter")
+
+
+def body_stmts(fw, node):
+    """statements of the body block of a loop node / of a fn"""
+    if node["kind"] == "fn":
+        return fw.top_stmts(node)
+    blocks = [c for c in fw.children.get(node["id"], []) if c["kind"] == "block" and c["span"] == node["body_span"]]
+    if len(blocks) != 1:
+        raise WeaveError("%s: body block of loop at line %d not found" % (fw.rel, fw.line_of(node["span"][0])))
+    return [c for c in fw.children.get(blocks[0]["id"], [])]
+
+
+def module_ghost(fw, pos, text):
+    """ghost items (spec fns, lemmas, assume_specifications for private types) at module level"""
+    return fw.insert(pos, "\nverus!{\n" + text.rstrip() + "\n} // verus!\n", rule="W10")
+
+
+def hoist_impl(ctx, fw, self_ty, within, target):
+    ims = fw.impls(self_ty, None, within=within)
+    if len(ims) != 1:
+        raise WeaveError("%s: nested impl %s found %d times" % (fw.rel, self_ty, len(ims)))
+    im = ims[0]
+    fw.move(im["span"][0], im["span"][1], target, pre="", suf="\n", rule="W4", what="impl " + self_ty)
+    return im
